@@ -49,7 +49,14 @@ class MethodDescriptor(metaclass=ABCMeta):
 
     def __get__(self, instance: Any, spec_cls: Type = None) -> Callable:
         if self.dissolve:
-            setattr(spec_cls, self.name, self.method)
+            # Dissolve on the class that actually holds this descriptor: the
+            # lookup may have come through a subclass (which, if it is a
+            # spec-class that has not been bootstrapped yet, must still get
+            # its own methods later on).
+            for klass in getattr(spec_cls, "__mro__", ()):
+                if klass.__dict__.get(self.name) is self:
+                    setattr(klass, self.name, self.method)
+                    break
         if instance is not None:
             return types.MethodType(self.method, instance)
         return self.method
